@@ -355,6 +355,8 @@ def correspond(model_ok, res):
     pool = sorted(set(pool))
     r.shuffle(pool)
 
+    # process-global interpreter setting as found before any call of the code under test (see scenario 3c)
+    limit0 = sys.get_int_max_str_digits() if hasattr(sys, "get_int_max_str_digits") else None
     seq = {}                       # input -> sequential outcome (the module-level lexer gets used: it is stale afterwards)
 
     def expected(s):
@@ -461,15 +463,45 @@ def correspond(model_ok, res):
     # --- 3b. stress on what the semantic actions call (numerals of very different lengths, long phrases): state
     # shared below the lexer / tracker level (a module-level context, buffer, counter) only shows here
     numerals = ["price^12345678901234567890.5", "b^2", "colour~0.123456789012", "color~1", '"x y"~12345 z^0.000000001',
-                "a^1.50 b~.5 c^007", "q^99999999999999999999999999999999", "w~0.5"]
+                "a^1.50 b~.5 c^007", "q^99999999999999999999999999999999", "w~0.5",
+                # numerals beyond the interpreter's int <-> str digit limit (a process-global setting)
+                '"jumps over"~' + "1" * 5000 + "^2", 'x "c d"~' + "7" * 4400, '"a b"~' + "9" * 6000 + ' "e f"~' + "3" * 4301]
     heavy_rounds = 3 if quick else 20
     for i in range(heavy_rounds):
         n = 4
         per = 120 if quick else 400
         inputs = [[numerals[(j + t * 3 + i) % len(numerals)] for j in range(per)] for t in range(n)]
+        if limit0 is not None and sys.get_int_max_str_digits() != limit0:
+            sys.set_int_max_str_digits(limit0)
         outs, _ = rig.run(inputs, None, switch=1e-6)
         judge(inputs, None, outs, None, "stress-numerals-switchinterval-1e-6")
         stress_calls += n * per
+
+    # --- 3c. many SHORT free-running rounds on numerals beyond the interpreter's int <-> str digit limit: code that
+    # lifts a process-global interpreter setting around a conversion races with itself; the first race usually leaves
+    # the setting lifted for good (after which nothing can fail any more), so the settings found at the start are
+    # put back before every round and the rounds are short and many
+    shapes = [[['"a b"~' + str(t % 9 + 1) * (4400 + j + 7 * t) for j in range(per)] for t in range(n)]
+              for n, per in ((3, 2), (16, 1), (4, 6), (8, 6), (8, 2))]
+    short_rounds = 1500 if quick else 8000
+    leaks, short_failed = 0, 0
+    for i in range(short_rounds):
+        over = shapes[(i // 50) % len(shapes)]
+        if limit0 is not None and sys.get_int_max_str_digits() != limit0:
+            leaks += 1
+            sys.set_int_max_str_digits(limit0)
+        outs, _ = rig.run(over, None, switch=1e-6)
+        if not judge(over, None, outs, None, "short-rounds-over-limit-numerals-switchinterval-1e-6"):
+            short_failed += 1
+            if short_failed >= 3:
+                break
+        stress_calls += sum(len(x) for x in over)
+    if limit0 is not None and sys.get_int_max_str_digits() != limit0:
+        leaks += 1
+        sys.set_int_max_str_digits(limit0)
+    if leaks:
+        res.notes.append("a process-global interpreter setting (sys int max str digits) was found changed after %d of "
+                         "the short rounds of concurrent calls and was put back by the harness" % leaks)
 
     # --- 4. sensitivity self-tests: the harness must FIND a failing schedule when the partition is broken
     def sensitivity(patch, unpatch, s0, s1, label):
@@ -535,7 +567,10 @@ def correspond(model_ok, res):
         return
     try:
         # every observed outcome against Parser.parse
-        strings = sorted(seq)
+        # (numerals beyond the interpreter's int <-> str digit limit are refused by CPython itself, a size limit the
+        #  model does not have — DESIGN section 8: those inputs are judged against the sequential outcome only)
+        import re as _re
+        strings = sorted(s for s in seq if not _re.search(r"[0-9]{4000}", s))
         cases = ["(%s, %s)" % (lib.g_str(s), pexp(seq[s])) for s in strings]
         canary = "([97]%N, PExpSyntax [97]%N)"
         bad = lib.eval_cases("C14p", MODEL_IMPORTS, MODEL_DEFS, cases + [canary], "chk_parse", shard=120)
